@@ -129,10 +129,18 @@ func (Params).NewItem
 
 pred iwOK(w *Writer) := w != nil && w.f != nil
 
-// ASSUMED (I/O prologue)
+// the item writer installed in Writer.writer is the one for the index parameters, with a scratch buffer of one item
+pred writerOK(w *Writer) :=
+    (w.opts.Times && w.opts.Keys ==> fnIs(w.writer, "index.writeFull$bound") && len(w.buff) == 32)
+    && (w.opts.Times && !w.opts.Keys ==> fnIs(w.writer, "index.writeTimes$bound") && len(w.buff) == 24)
+    && (!w.opts.Times && w.opts.Keys ==> fnIs(w.writer, "index.writeKeys$bound") && len(w.buff) == 24)
+    && (!w.opts.Times && !w.opts.Keys ==> fnIs(w.writer, "index.writeBase$bound") && len(w.buff) == 16)
+
+// I/O prologue: the UNLABELLED clauses (what the file system does) are assumed; the selection of the item writer is proved
 func OpenWriter
-    flags assumed
+    flags noframe only_layout
     assigns fPath, fsExists, fsDirty
+    ensures[layout_writer] err == nil ==> w != nil && w.opts == opts && writerOK(w)
     ensures err == nil ==> w != nil && fresh(w) && iwOK(w) && fPath[w.f] == path
     // the writer appends at the end of the file with a scratch buffer of one item
     ensures err == nil ==> w.pos == fSize[w.f] && w.pos >= 0 && len(w.buff) == opts.Size() && w.opts == opts && fresh(region(w.buff))
@@ -140,19 +148,32 @@ func OpenWriter
     ensures forall g *os.File :: !fresh(g) ==> fPath[g] == old(fPath[g])
     ensures forall p string :: p != path ==> fsExists[p] == old(fsExists[p]) && fsDirty[p] == old(fsDirty[p])
 
-field Writer.writer
+// layout of one item at byte p of b under index parameters o (the union of the four layouts below)
+pred itemAtOpts(b map[int]int, p int, it Item, o Params) :=
+    w64(b, p) == u64(it.Offset) && w64(b, p + 8) == u64(it.Position)
+    && (o.Times ==> w64(b, p + 16) == u64(it.Timestamp))
+    && (o.Keys ==> w64(b, p + 16 + ite(o.Times, 8, 0)) == it.KeyHash)
+
+// the item writer behind (*Writer).Write: whichever of the four functions OpenWriter installed (writerOK)
+field Writer.writer(self, it) (err)
     requires[sync_ok] iwOK(self)
-    assigns fsDirty
+    assigns fsDirty, fsContent, fData, fSize, Writer.pos, elems(self.buff)
     ensures[sync_frame] forall p string :: p != fPath[self.f] ==> fsDirty[p] == old(fsDirty[p])
+    // C11/C13: the per-publish index write appends the item in the layout of the writer's parameters
+    ensures[layout_item] writerOK(self) && old(self.pos) == old(fSize[self.f]) && old(self.pos) >= 0 && err == nil ==>
+                             itemAtOpts(fData[self.f], old(self.pos), it, self.opts) && self.pos == old(self.pos) + self.opts.Size() && self.pos == fSize[self.f]
 
 func (*Writer).Write
-    flags noframe
+    flags noframe only_sync only_layout
     requires[sync_ok] iwOK(w)
-    assigns fsDirty
+    assigns fsDirty, fsContent, fData, fSize, Writer.pos, elems(w.buff)
     ensures[sync_frame] forall p string :: p != fPath[w.f] ==> fsDirty[p] == old(fsDirty[p])
+    ensures[layout_item] writerOK(w) && old(w.pos) == old(fSize[w.f]) && old(w.pos) >= 0 && err == nil ==>
+                             itemAtOpts(fData[w.f], old(w.pos), it, w.opts) && w.pos == old(w.pos) + w.opts.Size() && w.pos == fSize[w.f]
 
 func (*Writer).writeBase
-    flags noframe only_sync only_layout
+    flags noframe only_sync only_layout only_impl
+    implements Writer.writer when writerOK(w) && fnIs(w.writer, "index.writeBase$bound")
     requires[sync_ok] iwOK(w)
     requires[layout_ok] w.f != nil && len(w.buff) == 16 && w.pos == fSize[w.f] && w.pos >= 0
     assigns fsDirty, fsContent, fData, fSize, Writer.pos, elems(w.buff)
@@ -167,7 +188,8 @@ func (*Writer).writeBase
     assert[layout_h8] sb64(w.buff, 8) == u64(it.Position) at return 2
     assert[layout_hfile] forall i :: old(w.pos) <= i && i < old(w.pos) + 16 ==> fData[w.f][i] == abs(w.buff, base(w.buff) + i - old(w.pos)) at return 2
 func (*Writer).writeTimes
-    flags noframe only_sync only_layout
+    flags noframe only_sync only_layout only_impl
+    implements Writer.writer when writerOK(w) && fnIs(w.writer, "index.writeTimes$bound")
     requires[sync_ok] iwOK(w)
     requires[layout_ok] w.f != nil && len(w.buff) == 24 && w.pos == fSize[w.f] && w.pos >= 0
     assigns fsDirty, fsContent, fData, fSize, Writer.pos, elems(w.buff)
@@ -183,7 +205,8 @@ func (*Writer).writeTimes
     assert[layout_h16] sb64(w.buff, 16) == u64(it.Timestamp) at return 2
     assert[layout_hfile] forall i :: old(w.pos) <= i && i < old(w.pos) + 24 ==> fData[w.f][i] == abs(w.buff, base(w.buff) + i - old(w.pos)) at return 2
 func (*Writer).writeKeys
-    flags noframe only_sync only_layout
+    flags noframe only_sync only_layout only_impl
+    implements Writer.writer when writerOK(w) && fnIs(w.writer, "index.writeKeys$bound")
     requires[sync_ok] iwOK(w)
     requires[layout_ok] w.f != nil && len(w.buff) == 24 && w.pos == fSize[w.f] && w.pos >= 0
     assigns fsDirty, fsContent, fData, fSize, Writer.pos, elems(w.buff)
@@ -199,7 +222,8 @@ func (*Writer).writeKeys
     assert[layout_h16] sb64(w.buff, 16) == it.KeyHash at return 2
     assert[layout_hfile] forall i :: old(w.pos) <= i && i < old(w.pos) + 24 ==> fData[w.f][i] == abs(w.buff, base(w.buff) + i - old(w.pos)) at return 2
 func (*Writer).writeFull
-    flags noframe only_sync only_layout
+    flags noframe only_sync only_layout only_impl
+    implements Writer.writer when writerOK(w) && fnIs(w.writer, "index.writeFull$bound")
     requires[sync_ok] iwOK(w)
     requires[layout_ok] w.f != nil && len(w.buff) == 32 && w.pos == fSize[w.f] && w.pos >= 0
     assigns fsDirty, fsContent, fData, fSize, Writer.pos, elems(w.buff)
